@@ -94,6 +94,9 @@ enum Origin {
     SysTask,
     Foreign,
     Arb(usize),
+    /// a task on an arbiter of ANOTHER System (a bystander alive on its own thread): its system arbiter
+    /// (`osys`) or a worker arbiter of it (`oarb`), holding a `System` handle of this one
+    Other(bool),
 }
 
 /// one step of a piece of straight-line client code
@@ -159,6 +162,10 @@ enum TaskKind {
     /// `pend`, and the future owns what a `spawn_blocking` helper on the arbiter's runtime waits for (see
     /// `feeding_future`): the thread can only finish once the future has been dropped
     PendOwn,
+    /// a future that — running on an arbiter of THIS system — stops ANOTHER System (alive on its own thread,
+    /// with a worker arbiter of its own) through a `System` handle taken there earlier: that system's `run`
+    /// returns the code and its arbiters stop; the arbiter the caller runs on, and its system, are not touched
+    StopOther,
 }
 
 #[derive(Clone, Debug)]
@@ -217,6 +224,8 @@ struct Scenario {
     runner_mode: Option<u8>,
     /// c10: a `dropsys` line exists
     dropsys: bool,
+    /// c10: the `stopother` task (one per case)
+    stopother: Option<usize>,
     stopped: Vec<bool>, // c10: a stop command exists for this arbiter
 }
 
@@ -385,6 +394,8 @@ fn custom_tokio_rt() -> tokio::runtime::Runtime {
 /// how long the slow runtime factory of `rt=slow` takes on the new arbiter's thread, in front of the
 /// registration: `Arbiter::with_tokio_rt` must not return before the arbiter is registered however long
 const SLOW_FACTORY: Duration = Duration::from_millis(350);
+/// the code a `stopother` task / an `osys` / `oarb` entry's bystander system is stopped with
+const OTHER_CODE: i32 = 77;
 /// commands queued behind the held task of a `backlog` arbiter when no number is given (`backlog:N`)
 const BACKLOG: usize = 1100;
 
@@ -815,9 +826,31 @@ fn exec_c09(sc: &Scenario, mode_run: bool, block: bool, jseed: u64) -> Out {
         }
     };
 
+    // the bystander System of `osys` / `oarb` entries
+    let mut bystander = None;
+    if entries.iter().any(|e| matches!(e.origin, Origin::Other(_))) {
+        bystander = side_system();
+    }
     // issuers on arbiter threads and foreign threads
     for (i, e) in entries.iter().enumerate() {
         match e.origin {
+            Origin::Other(worker) => {
+                let gate = gate_rx[i].take().unwrap();
+                let ack = ack_tx[i].take().unwrap();
+                let sys = sys.clone();
+                let late = late.clone();
+                let actions = e.actions.clone();
+                let mut r = Rng::new(jseed ^ (0x55 + i as u64));
+                if let Some((bsys, bworker, _)) = &bystander {
+                    let h = if worker { bworker.handle() } else { bsys.arbiter().clone() };
+                    // it runs on the other System's arbiter and stops THIS system through the handle
+                    h.spawn(async move {
+                        let _ = gate.await;
+                        perform(&actions, Some(&sys), &mut r, (custom, slow), plain, &late, false);
+                        let _ = ack.send(());
+                    });
+                }
+            }
             Origin::Arb(k) => {
                 let gate = gate_rx[i].take().unwrap();
                 let ack = ack_tx[i].take().unwrap();
@@ -1001,6 +1034,40 @@ fn exec_c09(sc: &Scenario, mode_run: bool, block: bool, jseed: u64) -> Out {
         }
     }
     let _ = release_tx.send(());
+    // the bystander System is none of this system's business: the arbiters the stops were issued from still
+    // run commands, its `run` has not returned; stopped itself, it returns its own code and its worker ends
+    if let Some((bsys, bworker, bres)) = bystander {
+        for (i, e) in entries.iter().enumerate() {
+            let Origin::Other(worker) = e.origin else { continue };
+            if !asked[i] {
+                asked[i] = true;
+                acked[i] = ack_rx[i].recv_timeout(WATCHDOG).is_ok();
+            }
+            let h = if worker { bworker.handle() } else { bsys.arbiter().clone() };
+            let st = Arc::new(AtomicBool::new(false));
+            let st2 = st.clone();
+            let accepted = h.spawn_fn(move || st2.store(true, Ordering::SeqCst));
+            if !accepted || !wait_flag(&st, WATCHDOG) {
+                t3.push(("C09".into(), format!(
+                    "a task on {} of ANOTHER System stopped this system; afterwards that arbiter — which nobody stopped — {}",
+                    if worker { "a worker arbiter" } else { "the system arbiter" },
+                    if accepted { "accepted a command that never started" } else { "refused a command" }
+                )));
+            }
+        }
+        if let Ok(r) = bres.try_recv() {
+            t3.push(("C09".into(), format!("the other System's run_with_code returned {r:?} although only THIS system was stopped")));
+        } else {
+            bsys.stop_with_code(OTHER_CODE);
+            match bres.recv_timeout(WATCHDOG) {
+                Ok(Ok(c)) if c == OTHER_CODE => {}
+                r => t3.push(("C09".into(), format!("the other System, stopped with code {OTHER_CODE}: run_with_code gave {r:?}"))),
+            }
+        }
+        if join_watchdog(bworker, WATCHDOG) != "ok" {
+            t3.push(("C09".into(), "the other System's worker arbiter did not end with its system (join: hang)".into()));
+        }
+    }
 
     // ---- T3: the property statement, directly on the observation ----
     // the code returned is that of the first Exit in the queue: the first stop of an entry that no other
@@ -1126,6 +1193,8 @@ struct TaskLog {
     blockers: Mutex<Vec<(usize, mpsc::Sender<()>)>>,
     /// `pendown` tasks: has the blocking helper begun to run?
     helpers: Mutex<Vec<(usize, Arc<AtomicBool>)>>,
+    /// `stopother`: the other System
+    other_sys: Mutex<Option<System>>,
 }
 
 /// what the director tells a task that holds its arbiter's thread
@@ -1234,6 +1303,15 @@ fn do_spawn(h: &Sender10, kind: TaskKind, task: usize, log: Arc<TaskLog>) -> boo
         }),
         // holds the arbiter's thread until the director opens the gate: everything sent meanwhile
         // is found by the arbiter's loop in one go
+        TaskKind::StopOther => {
+            let other = log.other_sys.lock().unwrap().clone();
+            sp!(async move {
+                log.start(task);
+                if let Some(o) = other {
+                    o.stop_with_code(OTHER_CODE);
+                }
+            })
+        }
         TaskKind::PendOwn => {
             let flag = Arc::new(AtomicBool::new(false));
             log.guards.lock().unwrap().push((task, flag.clone()));
@@ -1419,6 +1497,23 @@ fn finish_runner(
     }
 }
 
+/// a second System on a thread of its own, with one worker arbiter, running until somebody stops it:
+/// (its handle, the worker, what `run_with_code` returned)
+fn side_system() -> Option<(System, Arbiter, mpsc::Receiver<Result<i32, String>>)> {
+    let (tx, rx) = mpsc::channel();
+    let (res_tx, res_rx) = mpsc::channel();
+    thread::spawn(move || {
+        let lock = ID_LOCK.read().unwrap_or_else(|e| e.into_inner());
+        let runner = System::new();
+        let worker = Arbiter::new();
+        drop(lock);
+        let _ = tx.send((System::current(), worker));
+        let _ = res_tx.send(runner.run_with_code().map_err(|e| e.to_string()));
+    });
+    let (sys, worker) = rx.recv_timeout(LOCK_WAIT).ok()?;
+    Some((sys, worker, res_rx))
+}
+
 fn short<T: std::fmt::Debug>(v: &[T]) -> String {
     if v.len() <= 16 {
         format!("{v:?}")
@@ -1450,6 +1545,7 @@ fn exec_c10(sc: &Scenario, jseed: u64) -> Out {
         selfjoin_ret: Mutex::new(vec![]),
         blockers: Mutex::new(vec![]),
         helpers: Mutex::new(vec![]),
+        other_sys: Mutex::new(None),
     });
     // per target: the owner object (None for the system arbiter) and a handle
     let mut real = arbs.into_iter();
@@ -1457,6 +1553,12 @@ fn exec_c10(sc: &Scenario, jseed: u64) -> Out {
     let handles: Vec<ArbiterHandle> =
         owners.iter().map(|o| match o { Some(a) => a.handle(), None => sys.arbiter().clone() }).collect();
     *log.handles.lock().unwrap() = handles.clone();
+    // `stopother`: the other System
+    let mut other = None;
+    if sc.stopother.is_some() {
+        other = side_system();
+        *log.other_sys.lock().unwrap() = other.as_ref().map(|o| o.0.clone());
+    }
     let (gate_ack_tx, gate_ack_rx) = mpsc::channel::<bool>();
     *log.gate_ack.lock().unwrap() = Some(gate_ack_tx);
 
@@ -1734,6 +1836,32 @@ fn exec_c10(sc: &Scenario, jseed: u64) -> Out {
     }
     sys.stop();
     let sys_res = res_rx.recv_timeout(WATCHDOG);
+    // (decided only now: on the system arbiter a task may start as long as the system's runtime is there)
+    // `stopother`: the other System was stopped by the task (if it started): its `run` returned the code, its
+    // worker arbiter ended
+    let mut other_s = "-".to_string();
+    if let (Some(t), Some((osys, oworker, ores))) = (sc.stopother, other) {
+        if log.started(t) {
+            other_s = OTHER_CODE.to_string();
+            match ores.recv_timeout(WATCHDOG) {
+                Ok(Ok(c)) if c == OTHER_CODE => {}
+                r => {
+                    t3.push(("C10".into(), format!("the other System was stopped with code {OTHER_CODE} by task {t}, but its run_with_code gave {r:?}")));
+                    other_s = "?".into();
+                    osys.stop_with_code(1);
+                }
+            }
+        } else {
+            other_s = "idle".into();
+            osys.stop_with_code(1);
+            let _ = ores.recv_timeout(WATCHDOG);
+        }
+        if join_watchdog(oworker, WATCHDOG) != "ok" {
+            t3.push(("C10".into(), "the other System's worker arbiter was not stopped with its system (join: hang)".into()));
+        }
+    } else if sc.stopother.is_some() {
+        other_s = "?".into();
+    }
     // the system's runtime is gone: the futures its LocalSet owned have been dropped
     if let (Some(si), Ok(_)) = (sc.sys_idx, &sys_res) {
         for (t, f) in log.guards.lock().unwrap().iter() {
@@ -1895,7 +2023,7 @@ fn exec_c10(sc: &Scenario, jseed: u64) -> Out {
         Some(g) => b(g),
     };
     let logline = format!(
-        "rets={} starts={} waits={} joins={} sysgone={} post={} ids={} once={} late={} owner={} teardown={}",
+        "rets={} starts={} waits={} joins={} sysgone={} post={} ids={} once={} late={} owner={} teardown={} other={}",
         if rets.is_empty() { "-".into() } else { rets.iter().map(|r| b(*r)).collect::<Vec<_>>().join("") },
         if starts.is_empty() { "-".into() } else { starts.join(",") },
         if waits.is_empty() { "-".into() } else { waits.iter().map(|(t, ok)| format!("t{t}:{}", b(*ok))).collect::<Vec<_>>().join(",") },
@@ -1907,6 +2035,7 @@ fn exec_c10(sc: &Scenario, jseed: u64) -> Out {
         b(late),
         if owner_rets.is_empty() { "-".to_string() } else { owner_rets.join(",") },
         if teardown.is_empty() { "-".to_string() } else { teardown.join(",") },
+        other_s,
     );
     // normalised verdict (the Lean driver prints the same from the model's final state)
     let mut v = vec![];
@@ -1924,6 +2053,7 @@ fn exec_c10(sc: &Scenario, jseed: u64) -> Out {
     v.push(format!("late={}", b(late)));
     v.push(format!("owner={}", if owner_rets.is_empty() { "-".to_string() } else { owner_rets.join(",") }));
     v.push(format!("teardown={}", if teardown.is_empty() { "-".to_string() } else { teardown.join(",") }));
+    v.push(format!("other={other_s}"));
     Out { log: logline, verdict: v.join(" "), t3 }
 }
 
@@ -2528,7 +2658,7 @@ fn feed(sc: &mut Scenario, ws: &[&str]) -> LineRes {
             let e = Entry { origin, actions, seq };
             // one batch per case; at most two arbiters created by it; not while the counters are aligned
             // (a thread that belongs to no System cannot create arbiters)
-            if sc.has_batch || e.news() > 2 || (e.news() > 0 && (sc.align.is_some() || e.origin == Origin::Foreign)) || !entry_ok(sc, &e.origin, seq) {
+            if sc.has_batch || e.news() > 2 || (e.news() > 0 && (sc.align.is_some() || matches!(e.origin, Origin::Foreign | Origin::Other(_)))) || !entry_ok(sc, &e.origin, seq) {
                 return bad();
             }
             sc.has_batch = true;
@@ -2615,6 +2745,12 @@ fn feed(sc: &mut Scenario, ws: &[&str]) -> LineRes {
                 return bad();
             }
             let Some(via) = parse_via(sc, a, via) else { return bad() };
+            if kind == TaskKind::StopOther {
+                if sc.stopother.is_some() {
+                    return bad();
+                }
+                sc.stopother = Some(sc.ntask);
+            }
             if kind == TaskKind::Blocking {
                 // the system's runtime is the harness's to drop: `Arbiter::new` targets only
                 if sc.sys_idx == Some(a) {
@@ -2643,7 +2779,7 @@ fn feed(sc: &mut Scenario, ws: &[&str]) -> LineRes {
         }
         (10, ["spawnn", a, via, kind, n]) => {
             let (Some(a), Some(kind), Some(n)) = (parse_nat(a), parse_kind(kind), parse_nat(n)) else { return bad() };
-            if a >= sc.narb || sc.nlines >= MAX_LINES || !(2..=1600).contains(&n) || sc.ntask + n > MAX_TASKS || kind == TaskKind::Gate || kind == TaskKind::SelfJoin || kind == TaskKind::Blocking || kind == TaskKind::PendOwn {
+            if a >= sc.narb || sc.nlines >= MAX_LINES || !(2..=1600).contains(&n) || sc.ntask + n > MAX_TASKS || kind == TaskKind::Gate || kind == TaskKind::SelfJoin || kind == TaskKind::Blocking || kind == TaskKind::PendOwn || kind == TaskKind::StopOther {
                 return bad();
             }
             let Some(via) = parse_via(sc, a, via) else { return bad() };
@@ -2778,6 +2914,8 @@ fn parse_origin(sc: &Scenario, o: &str, foreign_ok: bool) -> Option<Origin> {
         "sys-pre" => Some(Origin::SysPre),
         "sys-task" => Some(Origin::SysTask),
         "foreign" if foreign_ok => Some(Origin::Foreign),
+        "osys" if foreign_ok => Some(Origin::Other(false)),
+        "oarb" if foreign_ok => Some(Origin::Other(true)),
         _ => match parse_prefixed(o, "arb:") {
             // (a task on it must be able to run: not stopped, not retired, its thread not held)
             Some(k) if k < sc.kinds.len() && !matches!(sc.kinds[k], Kind::Early | Kind::Done | Kind::Backlog(_)) && !sc.retire.contains(&k) => Some(Origin::Arb(k)),
@@ -2833,6 +2971,7 @@ fn parse_kind(s: &str) -> Option<TaskKind> {
         "selfjoin" => TaskKind::SelfJoin,
         "blocking" => TaskKind::Blocking,
         "pendown" => TaskKind::PendOwn,
+        "stopother" => TaskKind::StopOther,
         _ => return None,
     })
 }
@@ -3010,7 +3149,7 @@ fn write_c09(w: &mut dyn Write, name: &str, kinds: &[usize], align: Option<usize
 /// origins a stop can come from: the system thread before `run`, a task on it, a foreign thread, a
 /// task on an arbiter whose loop is running
 fn origins_for(kinds: &[usize]) -> Vec<String> {
-    let mut v = vec!["sys-pre".to_string(), "sys-task".to_string(), "foreign".to_string()];
+    let mut v = vec!["sys-pre".to_string(), "sys-task".to_string(), "foreign".to_string(), "osys".to_string(), "oarb".to_string()];
     for (k, kind) in kinds.iter().enumerate() {
         if *kind != 0 && *kind != 4 && *kind != 6 {
             v.push(format!("arb:{k}"));
@@ -3500,8 +3639,44 @@ fn directed_load_c09(w: &mut dyn Write, rng: &mut Rng, thorough: bool) {
     }
 }
 
+/// Directed scenarios (both tiers, in front) with a bystander System: the stop is issued by a task on the
+/// system arbiter (`osys`) or on a worker arbiter (`oarb`) of ANOTHER System, through a handle of this one —
+/// this system's `run` returns the code and exactly its arbiters stop; the other System, and the arbiter the
+/// call was made from, go on.
+fn directed_other_c09(w: &mut dyn Write, rng: &mut Rng, thorough: bool) {
+    let mut n = 0;
+    let mut case = |w: &mut dyn Write, rng: &mut Rng, lines: &[&str], mode: &str| {
+        writeln!(w, "case o{n} c09").unwrap();
+        n += 1;
+        for l in lines {
+            writeln!(w, "{l}").unwrap();
+        }
+        writeln!(w, "go {mode} j={}", rng.next() % 1_000_000).unwrap();
+    };
+    case(w, rng, &["arb running", "stop osys 7"], "code");
+    case(w, rng, &["arb busy", "arb running", "stop oarb 0", "stop osys 4 race"], "run");
+    case(w, rng, &["arb running", "batch oarb x s3 s5", "stop arb:0 9 seq"], "block");
+    if thorough {
+        for o in ["osys", "oarb"] {
+            for kinds in [&[][..], &["running"], &["busy", "dropped", "feeding"], &["early", "running"]] {
+                for second in ["", "stop foreign 9 seq", "stop sys-task 8 race", "stop oarb 6 race", "stop osys 5 seq"] {
+                    let mut lines: Vec<String> = kinds.iter().map(|k| format!("arb {k}")).collect();
+                    lines.push(format!("stop {o} {}", *rng.pick(&[0, 3, -4, 65536])));
+                    if !second.is_empty() {
+                        lines.push(second.to_string());
+                    }
+                    let ls: Vec<&str> = lines.iter().map(|x| x.as_str()).collect();
+                    let mode = *rng.pick(&["code", "run", "block"]);
+                    case(w, rng, &ls, mode);
+                }
+            }
+        }
+    }
+}
+
 fn gen_c09(a: &Args, w: &mut dyn Write) {
     let mut rng = Rng::new(a.seed ^ 0xC09);
+    directed_other_c09(w, &mut rng, a.tier == "thorough");
     directed_load_c09(w, &mut rng, a.tier == "thorough");
     directed_backlog_retire_c09(w, &mut rng, a.tier == "thorough");
     directed_feeding_c09(w, &mut rng, a.tier == "thorough");
@@ -3520,6 +3695,10 @@ fn gen_c09(a: &Args, w: &mut dyn Write) {
                     let kinds: Vec<usize> = (0..na).map(|i| (kc / 5usize.pow(i as u32)) % 5).collect();
                     let origins = origins_for(&kinds);
                     for (oi, o) in origins.iter().enumerate() {
+                        // (stops issued from another System's arbiters: in the first repetition only)
+                        if rep > 0 && (o == "osys" || o == "oarb") {
+                            continue;
+                        }
                         for code in [0, 7] {
                             for two in [false, true] {
                                 let mut stops = vec![(o.clone(), code, "seq")];
@@ -3612,6 +3791,7 @@ fn gen_c09(a: &Args, w: &mut dyn Write) {
     writeln!(w, "case bad3\narb running\nstop sys-pre 0\ngo code j=0").unwrap();
     writeln!(w, "case bad4 c09\nalign 0\narb done\nalign 1\nalign x\nalign 0\nalign 0\narb running\nstop arb:0 1\nstop foreign 1\nalign 0\ngo code j=2").unwrap();
     writeln!(w, "case bad5 c09 rt=custom\narb running\nbatch\nbatch foreign s1\nbatch sys-pre\nbatch sys-pre seq\nbatch arb:1 s1\nbatch sys-pre s1 nx\nbatch sys-pre sx\nbatch sys-pre s1 s2 s3 s4 s5 s6\nbatch sys-pre nr nr nr\nbatch sys-pre nr seq race\nbatch sys-pre nr\ngo code j=1\nbatch sys-task s1\nstop sys-task 1\nstop sys-pre 2 seq\nstop sys-pre 3 race\nstop foreign 4\ngo code j=3").unwrap();
+    writeln!(w, "case bad13 c09\nbatch osys nr s1\nbatch oarb s1 nd\nstop other 1\nstop oarb 2\nstop osys 3 seq\nstop oarb 4 race\nstop osys 5\ngo code j=13").unwrap();
     writeln!(w, "case bad12 c09\narb backlog:0\narb backlog:1601\narb backlog:\narb backlog:31\nsysload x\nsysload 2001\nsysload 61\nsysload 61\nbatch sys-pre nk:0 s1\nbatch sys-pre nk:32 s1\nstop arb:0 3\nsysload 5\ngo code j=12").unwrap();
     writeln!(w, "case bad11 c09\narb running\narb early\narb running\narb backlog\nretire 1\nretire 3\nretire 0 0\nretire 0 9\nretire\nretire 2\nretire 0\narb running\nstop arb:2 1\nstop arb:3 1\nstop arb:0 4\nretire 0\ngo code j=11").unwrap();
     writeln!(w, "case bad10 c09\nsysfeed\nsysfeed\narb feeding\narb feed\nbatch sys-pre nf nx s1\nbatch sys-pre nf s1\nsysfeed\ngo code j=2").unwrap();
@@ -3654,6 +3834,19 @@ fn directed_c10(w: &mut dyn Write, rng: &mut Rng, n: &mut usize, thorough: bool)
             for tgt in ["arb", "sysarb"] {
                 case(w, &[s(tgt), s("spawn 0 own gate"), s("wait t0"), format!("spawnn 0 h1 fn {q}"), s("open t0"), format!("wait t{q}"), s("stop 0 own")], rng);
                 case(w, &[s(tgt), s("spawn 0 own gate"), s("wait t0"), format!("spawnn 0 own fn {q}"), s("stop 0 h2"), s("spawnn 0 h1 fn 40"), s("open t0")], rng);
+            }
+        }
+    }
+    // (0000000000) two Systems: a task on an arbiter of this one stops the OTHER System through a handle taken
+    // there — that one's `run` returns the code and its arbiters stop; the calling arbiter, which nobody
+    // stopped, goes on accepting and running commands
+    case(w, &[s("arb"), s("spawn 0 own stopother"), s("wait t0"), s("spawn 0 h1 fn"), s("spawn 0 own fut"), s("wait t2"), s("stop 0 own")], rng);
+    case(w, &[s("sysarb"), s("arb"), s("spawn 0 h1 stopother"), s("wait t0"), s("spawn 0 own fn"), s("spawn 1 h2 pend"), s("wait t1"), s("wait t2"), s("stop 0 own"), s("stop 1 h2")], rng);
+    if thorough {
+        for via in ["own", "h1", "h2"] {
+            for tgt in ["arb", "sysarb"] {
+                case(w, &[s(tgt), s("spawn 0 own fn"), format!("spawn 0 {via} stopother"), s("spawn 0 h1 fut"), s("wait t2"), s("spawn 0 own fn"), s("wait t3"), format!("stop 0 {via}")], rng);
+                case(w, &[s(tgt), s("spawn 0 own gate"), s("wait t0"), format!("spawn 0 {via} stopother"), s("spawn 0 c0 fn"), s("open t0"), s("wait t2"), s("stop 0 own")], rng);
             }
         }
     }
@@ -3852,6 +4045,7 @@ fn gen_c10(a: &Args, w: &mut dyn Write) {
             writeln!(w, "{}", if with_sys && i == sys_pos { "sysarb" } else { "arb" }).unwrap();
         }
         let mut tasks: Vec<usize> = vec![]; // task -> arb (usize::MAX: the two tasks of a `late` line)
+        let mut stopother_used = false;
         let mut no_owner = vec![false; narb]; // a `late` line needs the owner object / it went into a `selfjoin` task
         // a third of the cases: owner-side sends after the loop has ended, for some of the targets
         if rng.chance(1, 3) {
@@ -3909,6 +4103,10 @@ fn gen_c10(a: &Args, w: &mut dyn Write) {
                 }
                 if rng.chance(1, 12) {
                     kind = "pendown";
+                }
+                if !stopother_used && rng.chance(1, 15) {
+                    kind = "stopother";
+                    stopother_used = true;
                 }
                 // now and then the owner object goes into a task of its own arbiter and is joined there
                 if !(with_sys && arb == sys_pos) && !no_owner[arb] && rng.chance(1, 12) {
@@ -4023,6 +4221,7 @@ fn gen_c10(a: &Args, w: &mut dyn Write) {
     writeln!(w, "case bad2 c10\narb\nspawn 0 own fn\nident\narb early\nstop sys-pre 1").unwrap();
     writeln!(w, "case bad3 c10\nhost 0 kept\nhost 4 kept\nhost 1 gone\nhost 2 kept\nhost 1 dropped\nsysarb\nsysarb\narb\narb\narb\nident\nspawn 1 own gate\nspawn 1 own fn\nwait t1\nwait t0\nopen t1\nopen t0\nopen t0\nwait t1\nspawnn 1 own fn 1\nspawnn 1 own fn 301\nspawnn 1 own gate 5\nspawnn 1 h1 fn 3\nspawnn 0 own fut 300\nspawnn 0 own fut 100\nstop 0 own\nstop 1 own\ngo j=9\nstop 2 h2\ngo j=9").unwrap();
     writeln!(w, "case bad4 c10\narb\nhost 1 kept\nspawn 0 own fn\nsysarb\nstop 0 own\ngo j=1").unwrap();
+    writeln!(w, "case bad15 c10\narb\nspawnn 0 own stopother 2\nspawn 0 own stopother\nspawn 0 h1 stopother\nwait t0\nstop 0 own\ngo j=14").unwrap();
     writeln!(w, "case bad14 c10\nsysarbgone\nsysarbgone aligned\nsysarbgone early aligned\nsysarbgone plain late\nsysarbgone plain alive").unwrap();
     writeln!(w, "case bad13 c10\nsyslive 0\nsyslive 201\nsyslive x\nrunner stoped\nrunner stopped\nsysarb\narb\nspawn 0 own fn\nwait t0\nstop 0 own\ngo j=12").unwrap();
     writeln!(w, "case bad11 c10\ndropsys\nrunner idle\nrunner block\nrunner plain\nhost 1 kept\nsysarb\ndropsys\narb\nident\nlate 0 sys\nspawn 0 own fn\ndropsys\ndropsys\nwait t0\nstop 0 own\ngo j=10").unwrap();
